@@ -71,6 +71,7 @@ class MidiFile(object):
 
     def MIDI_to_Composition(self, file):
         (header, track_data) = self.parse_midi_file(file)
+        bpm = self.bpm
         c = Composition()
         if header[2]["fps"]:
             print("Don't know how to parse this yet")
